@@ -55,9 +55,15 @@ def eval_cli_solution(case, acc=None):
                     continue
                 inp = synth._make_input(spec, enums)
                 try:
-                    if not inp.valid(p_['text']) or not inp.valid(txt):
-                        continue
-                    a, b = core.norm(inp.value(p_['text'])), core.norm(inp.value(txt))
+                    if p_.get('raw'):
+                        # a %(name)s reference: what it denotes is the referenced input's text
+                        if not inp.valid(txt):
+                            continue
+                        a, b = list(p_['typed']), core.norm(inp.value(txt))
+                    else:
+                        if not inp.valid(p_['text']) or not inp.valid(txt):
+                            continue
+                        a, b = core.norm(inp.value(p_['text'])), core.norm(inp.value(txt))
                 except Exception:
                     continue
                 if a != b:
@@ -145,10 +151,32 @@ def run_one(engine, seed, acc, tier):
         pre['refuse_at'] = None
         case['prelude'] = pre
         case['writeback'] = rng.chance(0.5)
+        if rng.chance(0.2):
+            # a value in the file that refers to another input of the same section (configparser's %(name)s), which is only
+            # supplied at the prompt: until then the reference cannot be resolved
+            pairs = []
+            for fs_ in case['world']['forms']:
+                strs = [i_['name'] for i_ in fs_['inputs'] if i_['type'] == 'str']
+                for inst_ in gen.instances_of(fs_):
+                    for a_ in strs:
+                        for b_ in strs:
+                            na, nb = gen.qual(fs_, inst_, a_), gen.qual(fs_, inst_, b_)
+                            if a_ != b_ and not case['persona'][nb]['invalid'] and not case['persona'][na]['invalid'] \
+                                    and '%' not in case['persona'][nb]['text'] and '\n' not in case['persona'][nb]['text'] \
+                                    and case['persona'][nb]['text'].strip():
+                                pairs.append((na, nb, b_))
+            if pairs:
+                na, nb, b_ = rng.pick(pairs)
+                case['ref_pair'] = [na, nb]
+                case['persona'][na] = {'text': f'%({b_})s', 'typed': ['s', case['persona'][nb]['text'].strip()], 'invalid': False, 'raw': True}
+                if na not in case['file']:
+                    case['file'].append(na)
+                case['file'] = [n for n in case['file'] if n != nb]
         # answers that are an empty line (a legal way to say 0 / nothing) for some of the questions
         for n in sorted(case['persona']):
             spec = simrun.input_spec_of(case['world'], n) or {}
-            if n not in case['file'] and not case['persona'][n]['invalid'] and not spec.get('count') and rng.chance(0.35):
+            if n not in case['file'] and not case['persona'][n]['invalid'] and not spec.get('count') and rng.chance(0.35) \
+                    and n not in (case.get('ref_pair') or []):
                 z = {'int': ['i', 0], 'float': ['f', '0.0'], 'str': ['s', '']}.get(spec.get('type'))
                 if z:
                     case['persona'][n] = {'text': '', 'typed': z, 'invalid': False}
